@@ -31,7 +31,8 @@ BankAccts == Users \cup {"hub", "reward", "dispatcher", "keeper", "swap"}
 Denoms    == {"kusd", "ufor", "usei"}
 DenomSeq  == <<"kusd", "ufor", "usei">>                          \* AllBalances order (by denom)
 Contracts == {"hub", "reward", "dispatcher", "registry", "bsei", "stsei", "swap", "oracle",
-              "airdrop", "airdropc", "airtoken", "airpair"}      \* airdrop registry / airdrop contract / airdrop token / pair (stubs)
+              "airdrop", "airdropc", "airtoken", "airpair",      \* airdrop registry / airdrop contract / airdrop token / pair (stubs)
+              "sink"}                                            \* a contract that accepts every message and does nothing
 
 NoneDec == <<>>            \* Option<Decimal>::None
 NoneInt == -1              \* Option<u64>::None
